@@ -7,12 +7,15 @@ PER_FAMILY = (300, 6000)
 
 PROOF = S.pool_proof('C08', ['C08_never_more_than_max', 'C08_accepted_submit_fills_the_pool', 'C08_registered_job_always_has_a_worker_coming', 'C08_structure',
                      'C08_plain_executor_delivers_its_parallelism', 'C08_reusable_executor_delivers_up_to_its_queue_capacity', 'C08_delivered_parallelism_partial',
-                     'C08_delivered_parallelism_refuted_for_small_queues', 'C08_wake_on_take_would_deliver'],
-                    "'max_workers tasks do run simultaneously': Model/QueueCap.v (counters; capacity formulas regenerated from the source) + the saturate / satreuse families, whose settled states must meet the proved bound; max_workers changes by _resize are not modelled; the reusable executor's fixed queue capacity bounds the delivered parallelism (H19, known)", extra_gen=['Resize'])
+                     'C08_delivered_parallelism_refuted_for_small_queues', 'C08_wake_on_take_would_deliver',
+                     'C08_worker_taking_an_item_tells_nobody', 'C08_loky_small_queue_starves'],
+                    "'max_workers tasks do run simultaneously': Model/QueueCap.v (counters; capacity formulas regenerated from the source) + the saturate / satreuse families, whose settled states must meet the proved bound; max_workers changes by _resize are not modelled; the reusable executor's fixed queue capacity bounds the delivered parallelism (H19, known)", extra_gen=['Resize', 'Worker'])
 
 
 def run(ctx):
-    return S.sim_check(ctx, FAMILIES, FAMILIES, PER_FAMILY, S.SIM_ASSUME, proof=PROOF)
+    from checks import realpar
+    extra = realpar.leak_exit(ctx)
+    return S.sim_check(ctx, FAMILIES, FAMILIES, PER_FAMILY, S.SIM_ASSUME, proof=PROOF, extra_cov=extra)
 
 
 def replay(ctx, path):
